@@ -10,6 +10,7 @@ Definition std_conf (i : nat) (c : pcls) : bool :=
   | 1, (PK KVertex | PK KDir | PK KUnd | PK KVertexSub | PK KDirSub | PK KUniverse) => true
   | 2, (PTwoEnded | PBase) => true
   | 3, (PK KVertex | PK KUnd) => true
+  | 4, (PK KVertex | PK KDir | PK KUnd) => true        (* the base classes only, in the harness's own styles *)
   | _, _ => false
   end.
 Definition pcls_code (c : pcls) : nat :=
